@@ -39,7 +39,7 @@ ASSUMPTIONS = [
     "what `orphans` does with repaired links is outside this property",
     "class families are created per case (deprecate() cannot be undone)",
 ]
-MIN_CLASSES = {"quick": {"family-below-root": 400, "repair-steps>=2": 100, "mode:fix+cleanup": 100, "pre:link-present": 20, "family-task-root": 200, "fault-injected": 15, "many-jobs-repaired-at-once": 20}, "thorough": {"repair-steps>=2": 1000}}
+MIN_CLASSES = {"quick": {"family-below-root": 400, "repair-steps>=2": 100, "mode:fix+cleanup": 100, "pre:link-present": 20, "family-task-root": 200, "fault-injected": 15, "many-jobs-repaired-at-once": 20, "workspace-named-by-a-relative-path": 100}, "thorough": {"repair-steps>=2": 1000}}
 
 POSITIONS = ["list", "dict", "nested", "inside-family", "producer"]
 
@@ -63,6 +63,8 @@ def plans(draw):
         "pre": draw(st.sampled_from([None, None, None, "link-present", "dangling-link", "conflicting-dir"])),
         # an I/O fault (no space left) during the k-th rewrite of a parameter file by a cleanup step
         "fault": draw(st.one_of(st.none(), st.none(), st.integers(0, 2))),
+        # the workspace is named by a relative path on the command line (`deprecated list --fix myws`)
+        "relative": draw(st.integers(0, 3)) == 0,
     }
 
 
@@ -240,6 +242,12 @@ def prop_repair(ctx, plan):
     if plan.get("bulk"):
         plan = dict(plan, tasks=plan["tasks"] + [dict(plan["tasks"][0], v=100 + k) for k in range(plan["bulk"])])
         labels.append("many-jobs-repaired-at-once")
+    wsarg = wsdir
+    cwd0 = os.getcwd()
+    if plan.get("relative"):
+        os.chdir(wsdir.parent)
+        wsarg = Path(wsdir.name)
+        labels.append("workspace-named-by-a-relative-path")
     try:
         # 1. job directories written while the Old classes are ordinary classes
         old_built = build_plan(plan, fam, True, RunMode.GENERATE_ONLY, workspace=ws)
@@ -316,7 +324,7 @@ def prop_repair(ctx, plan):
 
                 snap0 = snapshot(wsdir / "jobs")
                 try:
-                    deprecated_list.callback(path=wsdir, fix=False, cleanup=True)
+                    deprecated_list.callback(path=wsarg, fix=False, cleanup=True)
                 except Exception as e:
                     ctx.violation(f"repair-raises:{type(e).__name__}", f"listing with --cleanup raised {e!r}")
                 finally:
@@ -327,7 +335,7 @@ def prop_repair(ctx, plan):
                 continue
             try:
                 try:
-                    fix_deprecated(wsdir, True, mode == "fix+cleanup")
+                    fix_deprecated(wsarg, True, mode == "fix+cleanup")
                 finally:
                     tj.json = json
                     tg.Env.instance().wspath = None
@@ -346,7 +354,7 @@ def prop_repair(ctx, plan):
                     if sentinels(wsdir / "jobs") != before_sent:
                         ctx.violation("sentinel-lost", "job data disappeared during an interrupted repair")
                     try:
-                        fix_deprecated(wsdir, True, True)
+                        fix_deprecated(wsarg, True, True)
                     except Exception as e2:
                         ctx.violation(f"repair-raises-after-fault:{type(e2).__name__}", f"the repair cannot complete after an interrupted one: {e2!r}")
                         break
@@ -392,7 +400,7 @@ def prop_repair(ctx, plan):
             # idempotence: the same step again changes nothing
             snap = snapshot(wsdir / "jobs")
             try:
-                fix_deprecated(wsdir, True, mode == "fix+cleanup")
+                fix_deprecated(wsarg, True, mode == "fix+cleanup")
             except Exception as e:
                 ctx.violation(f"repair-raises:{type(e).__name__}", f"repeating repair step {step} ({mode}) raised {type(e).__name__}: {e}")
                 break
@@ -402,6 +410,7 @@ def prop_repair(ctx, plan):
                 ctx.violation(f"not-idempotent:{mode}", f"{where}: running the same repair again changed the workspace")
         ctx.record("family-below-root" in labels or len(plan["modes"]) >= 2, labels)
     finally:
+        os.chdir(cwd0)
         shutil.rmtree(wsdir, ignore_errors=True)
 
 
